@@ -227,7 +227,13 @@ def ctl_lines(stmts, rng, wc=[0]):
             for i, (cond, body) in enumerate(s[1]):
                 if rng.random() < 0.2:      # the header continued over two lines with a backslash
                     cond = "%s and \\\n%s   True" % (cond, pad)
-                out.append("%s%% %s %s:" % (pad, "if" if i == 0 else "elif", cond))
+                r_ = rng.random()
+                if r_ < 0.15:        # the keyword directly followed by a parenthesised expression
+                    out.append("%s%% %s(%s):" % (pad, "if" if i == 0 else "elif", cond))
+                elif r_ < 0.3:       # a colon and a hash inside a string literal of the header are not a trailing comment
+                    out.append("%s%% %s (%s) and ':#' != ':': # note: x" % (pad, "if" if i == 0 else "elif", cond))
+                else:
+                    out.append("%s%% %s %s:" % (pad, "if" if i == 0 else "elif", cond))
                 out += ctl_lines(body, rng)
             if s[2] is not None:
                 out.append(pad + "% else:")
@@ -238,6 +244,9 @@ def ctl_lines(stmts, rng, wc=[0]):
             out.append("%s%% for i%d in range(%d):" % (pad, wc[0], s[1]))
             if s[4] == "call":          # loop is read only from the body of a call: a scope of its own inside the loop
                 out.append('<%call expr="cb_()">${loop.index}/${loop.last}</%call>')
+            elif s[4] and rng.random() < 0.25:
+                # loop named only in an attribute of a tag inside the loop (a filter of an empty <%text>, which writes what the filter returns)
+                out.append('<%text filter="lp_(loop.index, loop.last)"></%text>')
             elif s[4]:
                 out.append("${loop.index}/${loop.last}")
             out += ctl_lines(s[2], rng)
@@ -260,7 +269,10 @@ def ctl_lines(stmts, rng, wc=[0]):
             for h, body in s[3]:
                 if h and rng.random() < 0.25:
                     h = "(%s, \\\n%s      OverflowError)" % (h, pad)
-                out.append("%s%% except%s:" % (pad, (" " + h) if h else ""))
+                if h and not h.startswith("(") and rng.random() < 0.2:
+                    out.append("%s%% except(%s):" % (pad, h))
+                else:
+                    out.append("%s%% except%s:" % (pad, (" " + h) if h else ""))
                 out += ctl_lines(body, rng)
             out.append(pad + "% endtry")
         elif k == "with":
@@ -523,7 +535,7 @@ def run(ctx):
 
             def raise_(name):
                 raise {"KeyError": KeyError, "ZeroDivisionError": ZeroDivisionError, "ValueError": ValueError}[name](name)
-            out = t.render(f1=1, f0=0, raise_=raise_, nullctx=contextlib.nullcontext)
+            out = t.render(f1=1, f0=0, raise_=raise_, nullctx=contextlib.nullcontext, lp_=lambda i_, l_: (lambda s_: "%s/%s" % (i_, l_)))
         except Exception as e:  # noqa
             out = "raised %s: %s" % (type(e).__name__, str(e)[:120])
         try:
@@ -551,6 +563,13 @@ def run(ctx):
                            ("% if True:\n<%text></%text>\\\n% endif\nx", "x", "silent-only.empty-text"),
                            ("% for i in [1]:\n<%text></%text>\\\n% else:\n<%text></%text>\\\n% endfor\nx", "x", "silent-only.empty-text-for-else"),
                            ("% if False:\n% elif True:\ny\n% endif\n", "y\n", "empty-then-elif"),
+                           ("% if True:\n<% %>\\\n% endif\nx", "x", "silent-only.empty-code"),
+                           ("% if True:\n<%\n # nothing to do\n%>\\\n% else:\n<%\n%>\\\n% endif\nx", "x", "silent-only.comment-only-code"),
+                           ("% for x in 1, 2:\n${loop.index}${x}|\\\n% endfor\n", "01|12|", "header.bare-tuple"),
+                           ("% while(False):\nno\n% endwhile\nx", "x", "keyword-paren"),
+                           ('<%page enable_loop="True"/><%namespace name="ns"><%def name="f()">\\\n% for c in "ab":\n${loop.index}\\\n% endfor\n</%def></%namespace>${ns.f()}', "01", "page-enable-loop.namespace-def"),
+                           ('<%def name="g(n)">(${n})</%def>\\\n% for i in [1,2]:\n<%call expr="g(loop.index)"></%call>\\\n% endfor\n', "(0)(1)", "loop-in-attribute.call"),
+                           ('<%def name="g(n)">(${n})</%def>\\\n% for i in [1,2]:\n<%self:g n="${loop.index}"/>\\\n% endfor\n', "(0)(1)", "loop-in-attribute.nscall"),
                            ("<%\n    return STOP_RENDERING\n%>never", "", "return"), ("a\n<% return STOP_RENDERING %>b", "a\n", "return-keeps-output"),
                            ('<%def name="d()">in<% return STOP_RENDERING %>no</%def>${d()}out', "inout", "return-in-def"),
                            ('<%def name="d()">in<% return STOP_RENDERING %>no</%def>${capture(d)}out', "inout", "return-in-captured-def"),
@@ -564,6 +583,20 @@ def run(ctx):
             res = "raised %s: %s" % (type(e).__name__, str(e)[:100])
         if res != want:
             ctx.violation({"template": src, "result": res, "expected": want}, "empty / comment-only body or return", tags=["c03.shape." + tag])
+
+    # <%page enable_loop="True"/> re-enables loop everywhere in a template created with enable_loop=False: body, top-level defs,
+    # and the defs written inside a <%namespace> tag
+    for src, want, tag in [('<%page enable_loop="True"/>\\\n% for c in "ab":\n${loop.index}\\\n% endfor\n', "01", "body"),
+                           ('<%page enable_loop="True"/><%def name="f()">\\\n% for c in "ab":\n${loop.index}\\\n% endfor\n</%def>${f()}', "01", "def"),
+                           ('<%page enable_loop="True"/><%namespace name="ns"><%def name="f()">\\\n% for c in "ab":\n${loop.index}\\\n% endfor\n</%def></%namespace>${ns.f()}', "01", "namespace-def")]:
+        ctx.evaluations += 1
+        try:
+            t_ = Template(src, enable_loop=False)
+            res = t_.render() + "|%r" % t_.module._enable_loop
+        except Exception as e:  # noqa
+            res = "raised %s: %s" % (type(e).__name__, str(e)[:100])
+        if res != want + "|True":
+            ctx.violation({"template": src, "enable_loop": False, "result": res, "expected": want + "|True"}, "<%page enable_loop> does not re-enable loop", tags=["c03.page-enable-loop." + tag])
 
     if model_ok:
         for g, m in zip(got, common.run_driver(PROP, req)):
